@@ -491,10 +491,10 @@ LANG_T = merged(BIG, VP_EXH_MAX=20000, VP_EXH_LEN=7, VP_RANDOM=60, VP_GUIDED=60,
 
 GENERIC = {
     "C02": dict(
-        rule="one-rule lexers for regex syntax trees: bounded-exhaustive (all 3815 trees with <= 2 operators over the atoms a, b, [a-b], [a-c], _, \"ab\", $$ascii_lowercase; thorough runs all, quick a seeded sample) plus random 3-operator and larger trees incl. `#`, each paired with a language-preserving rewrite (r+ = r r*, a|b = b|a, string = concatenation of its characters, r* = (r+)?) compiled as a second lexer; every string up to length 5-7 over {a,b,c,d,foreign}; oracle: derivative matcher cross-checked with a denotational matcher, and pairwise equality of the partner lexers. Non-trivial = distinct definitions with at least one operator.",
+        rule="one-rule lexers for regex syntax trees: bounded-exhaustive (all 3815 trees with <= 2 operators over the atoms a, b, [a-b], [a-c], _, \"ab\", $$ascii_lowercase; thorough runs all, quick a seeded sample) plus random 3-operator and larger trees incl. `#`, plus the same random trees over 1-4-byte and zero-width characters with many string literals (family langu), each paired with a language-preserving rewrite (r+ = r r*, a|b = b|a, string = concatenation of its characters, r* = (r+)?) compiled as a second lexer; every string up to length 5-7 over {a,b,c,d,foreign}; oracle: derivative matcher cross-checked with a denotational matcher, and pairwise equality of the partner lexers. Non-trivial = distinct definitions with at least one operator.",
         nt="nt_C02_cases",
         thorough_scale=1,
-        parts=[("langx", "equiv", 320, 4800, 20, LANG_Q, LANG_T), ("lang", "equiv", 120, 1600, 20, LANG_Q, LANG_T)],
+        parts=[("langx", "equiv", 320, 4800, 20, LANG_Q, LANG_T), ("lang", "equiv", 120, 1600, 20, LANG_Q, LANG_T), ("langu", "equiv", 60, 800, 20, LANG_Q, LANG_T)],
     ),
     "C16": dict(
         rule="regex trees over {a, b, [a-b], [b-c], _} with * + ? concatenation | and # (bounded-exhaustive: all 2085 trees with <= 2 operators, plus random trees with 3-6 operators) and multi-rule-set definitions with top-level and rule-set-local lets (the same local name bound differently in different rule sets); every definition is printed four ways (fewest parentheses the documented grammar allows, fully parenthesised, redundant parentheses, subtrees named with let) and each printing compiled through the real macro; all printings must agree with the reference matcher on the TREE (which never passes through a parser) and with each other. Non-trivial = (definition, wrong grammar) pairs in which the minimal printing, read by a WRONG grammar (postfix tighter than #, | tighter than concatenation, # right-associative, postfix applying to the whole preceding concatenation), is rejected or denotes a language that some input of the run separates from the tree's language - i.e. cases in which the run would notice that mis-reading.",
